@@ -23,3 +23,4 @@ for r in res:
         nc[r["clause"].split(":")[0]]+=1
         if nc[r["clause"].split(":")[0]]<=2: print("CLAUSE", r["case"]["stream"], r["clause"][:600])
 print("disagreements", nd, "clauses", dict(nc), c14.VARIANT)
+print(c14.COUNTS)
